@@ -331,13 +331,69 @@ Section Oracle.
              end
         else true).
 
+  (** *** C05 on whole calls: whatever a condition, a capture or an error factory receives under the name of a
+      value of the call is that value ([resolved]: the values the body receives, per parameter), and an error
+      factory receives every value of the call that it names - with or without a default *)
+  Definition kw_of_call (res : dict) (kw : dict) : bool :=
+    forallb (fun kv => match dict_get res (fst kv) with Some w => pv_eqb (snd kv) w | None => true end) kw.
+
+  Definition spec_C05_call (t : list event) (r : pv + exn) : bool :=
+    forallb (fun e =>
+               match e with
+               | EvCond RPre _ kw _ | EvCapture _ kw _ => kw_of_call resolved kw
+               | EvCond RPost k kw _ =>
+                   forallb (fun kv => if String.eqb (fst kv) "result" || String.eqb (fst kv) "OLD" then true
+                                      else match dict_get resolved (fst kv) with Some w => pv_eqb (snd kv) w | None => true end) kw
+               | EvError k kw =>
+                   match find (fun x => Z.eqb (cid x) k) (List.concat pre) with
+                   | Some x => match cerror x with
+                               | EFactory eargs _ =>
+                                   kw_of_call resolved kw
+                                   && forallb (fun a => implb (dict_has resolved a) (dict_has kw a)) eargs
+                               | _ => true
+                               end
+                   | None => true          (* postconditions and invariants: see the body's environment below *)
+                   end
+               | _ => true
+               end) t
+    (* the body's own view agrees with [resolved] *)
+    && (if kf_C05_surplus s args kwargs || kf_C05_posonly s kwargs then true   (* the recorded findings of the bind cluster *)
+        else forallb (fun e => match e with
+                               | EvBody env _ =>
+                                   forallb (fun n => match dict_get resolved n, dict_get env n with
+                                                     | Some a, Some b => pv_eqb a b
+                                                     | _, _ => true
+                                                     end) (map pname (named_params s))
+                               | _ => true end) t)
+    (* error factories of postconditions: the parameters of the function they name carry the body's values *)
+    && forallb (fun e =>
+                  match e with
+                  | EvError k kw =>
+                      match find (fun x => Z.eqb (cid x) k) post with
+                      | Some x => match cerror x with
+                                  | EFactory eargs _ =>
+                                      forallb (fun a => if String.eqb a "result" || String.eqb a "OLD" then true
+                                                        else match dict_get resolved a with
+                                                             | Some w => match dict_get kw a with
+                                                                         | Some v => pv_eqb v w
+                                                                         | None => false
+                                                                         end
+                                                             | None => true
+                                                             end) eargs
+                                  | _ => true
+                                  end
+                      | None => true
+                      end
+                  | _ => true
+                  end) t.
+
   (** *** C09 *)
   Definition error_events_ok (t : list event) : bool :=
     forallb (fun e => match e with
                       | EvError k kw =>
                           match find (fun x => Z.eqb (cid x) k) all_contracts with
                           | Some x => match cerror x with
-                                      | EFactory eargs => forallb (fun kv => str_in (fst kv) eargs) kw
+                                      | EFactory eargs _ => forallb (fun kv => str_in (fst kv) eargs) kw
                                                           && Nat.eqb (List.length kw) (List.length (filter (fun a => str_in a (map fst kw)) eargs))
                                       | _ => false        (* only factories are called *)
                                       end
